@@ -28,7 +28,9 @@
 
    Python (pstate/prog): public operations are straight-line programs over write / expect (sync or
    queued in _outstanding_expects) / _consume_async_expects / read / generic_handler; every read
-   intercepts SIGINT, SIGTERM, dying (readlines).  run_phase is modelled WITH the repair
+   intercepts SIGINT, SIGTERM, dying (readlines).  expect(timeout=..) (is_responsive) is the SAME
+   discipline as any synchronous expect: with expects outstanding it queues behind them and all are
+   consumed together (only the alarm, outside the model, differs).  run_phase is modelled WITH the repair
    fixes/C35-env-failure-drain.patch (outstanding async expects are collected first; the
    "phases failed" line that follows env_receiving_failed is consumed).  After an UnhandledCommand/InternalError the session is in PErr: only cleanup
    (timed probes, kill) happens there.
